@@ -145,20 +145,25 @@ Proof.
   f_equal. apply IH. intros y Hy. apply H. right. exact Hy.
 Qed.
 
+Lemma no_listed_ancestor_unrelated (ss : list filt) :
+  pw_unrel ceqb (map fid ss) ->
+  forall f, In f (map (@to_u comp) ss) -> has_listed_ancestor ceqb (map (@to_u comp) ss) f = false.
+Proof.
+  intros Hpw f Hf. apply in_map_iff in Hf. destruct Hf as [s [<- Hs]]. unfold has_listed_ancestor.
+  assert (Eu : forall x : filt, uname (to_u x) = Some (fid x)) by (intros [n|n]; reflexivity).
+  rewrite Eu. apply not_true_iff_false. intros Hex. apply existsb_exists in Hex. destruct Hex as [f' [Hf' Hsp]].
+  apply in_map_iff in Hf'. destruct Hf' as [s' [<- Hs']]. rewrite Eu in Hsp.
+  apply (sprefixb_spec ceqb ceqb_spec) in Hsp. destruct Hsp as [Hp Hne].
+  assert (R : related (fid s') (fid s) = false).
+  { apply (pw_unrel_in ceqb (map fid ss)); auto; apply in_map; assumption. }
+  unfold Names.related in R. rewrite Hp in R. discriminate.
+Qed.
+
 Lemma drop_children_unrelated (ss : list filt) :
   pw_unrel ceqb (map fid ss) -> drop_children ceqb (map (@to_u comp) ss) = map (@to_u comp) ss.
 Proof.
-  intros Hpw. unfold drop_children.
-  assert (H : forall f, In f (map (@to_u comp) ss) -> negb (has_listed_ancestor ceqb (map (@to_u comp) ss) f) = true).
-  { intros f Hf. apply in_map_iff in Hf. destruct Hf as [s [<- Hs]]. apply negb_true_iff. unfold has_listed_ancestor.
-    assert (Eu : forall x : filt, uname (to_u x) = Some (fid x)) by (intros [n|n]; reflexivity).
-    rewrite Eu. apply not_true_iff_false. intros Hex. apply existsb_exists in Hex. destruct Hex as [f' [Hf' Hsp]].
-    apply in_map_iff in Hf'. destruct Hf' as [s' [<- Hs']]. rewrite Eu in Hsp.
-    apply (sprefixb_spec ceqb ceqb_spec) in Hsp. destruct Hsp as [Hp Hne].
-    assert (R : related (fid s') (fid s) = false).
-    { apply (pw_unrel_in ceqb (map fid ss)); auto; apply in_map; assumption. }
-    unfold Names.related in R. rewrite Hp in R. discriminate. }
-  apply filter_all_true. exact H.
+  intros Hpw. unfold drop_children. apply filter_all_true. intros f Hf.
+  rewrite (no_listed_ancestor_unrelated ss Hpw f Hf). reflexivity.
 Qed.
 
 (* ---- the alias verdict ---- *)
@@ -167,7 +172,9 @@ Lemma alias_value g imp (ss : list filt) :
   V g (any_cfg imp (map (@to_u comp) ss)) = of_viol (Ok (realised imp (map (fun S => (S, others_of ceqb g imp S ss)) ss))).
 Proof.
   intros Hwf Hex Hpw Hne.
-  unfold AlgebraProofs.V. rewrite alias_anything, (drop_children_unrelated ss Hpw).
+  unfold AlgebraProofs.V.
+  rewrite alias_anything by (apply removed_unknown_false; apply no_listed_ancestor_unrelated; exact Hpw).
+  rewrite (drop_children_unrelated ss Hpw).
   change (verdict ceqb rmatch g (mk_ucfg ShouldNot imp true (map (@to_u comp) ss) (map (@to_u comp) ss)))
     with (V g (mk_ucfg ShouldNot imp true (map (@to_u comp) ss) (map (@to_u comp) ss))).
     rewrite verdict_unfold by (destruct ss; simpl; congruence).
